@@ -334,7 +334,7 @@ func (l *WAL) replayPhysicRecord(fr *bufio.Reader, walFileName string, recordCom
 		writeWalType: writeWalType,
 	}
 	n, err = io.ReadFull(fr, recordCompBuff)
-	if err == nil || err == io.EOF {
+	if err == nil {
 		var innerErr error
 		binaryBuff, innerErr = snappy.Decode(binaryBuff, recordCompBuff)
 		if innerErr != nil {
